@@ -41,6 +41,16 @@ def run(ctx):
             idx.append(len(cases))
             cases.append(("g%d_%d" % (i, q), "libc" if (i + q) % 3 == 0 else "mem", T.gid_of(d), d, delivery(r, d, q)))
         groups.append(idx)
+    # DAGs built around merge commands over transaction-local tips: the generating history (with its duplicates
+    # delivered while the merge is still in flight) against a plain causal re-delivery
+    for i in range(40 if ctx.thorough else 8):
+        d, ops = T.gen_merge_history(r, r.range(12, 34), ntx=1, reject_w=4)
+        ops = [o for o in ops if o[0] != "action"]
+        tail = [("open", 7)] + [("add", 7, [x]) for x in d.order] + [("commit", 7)]
+        idx = [len(cases), len(cases) + 1]
+        cases.append(("mg%d_a" % i, "mem", T.gid_of(d), d, ops + tail))
+        cases.append(("mg%d_b" % i, "libc" if i % 2 else "mem", T.gid_of(d), d, delivery(r, d, i)))
+        groups.append(idx)
     if ctx.thorough:
         # exhaustive small scope: all 120 delivery orders of a 5-command DAG (with and without flushes) must converge
         for fl in (False, True):
